@@ -29,7 +29,7 @@ m = {
     "hooks": {
         "guard": "scratchstack_aws_signature_verif",
         "enable": "no source hooks are needed: the harness depends on /repo by path with the crate's existing cargo feature `unstable`",
-        "baseline_off_cmd": "cd /repo && cargo test --workspace --no-fail-fast --offline",
+        "baseline_off_cmd": "cd /repo && cargo test --workspace --no-fail-fast --offline --lib --tests",
         "source_commits": [],
         "add_only": True,
     },
